@@ -187,6 +187,7 @@ func TestVerifC05DHCPChild(t *testing.T) {
 		_ = os.WriteFile(filepath.Join(dir, "result.json"), data, 0o644)
 	}
 	w := c05NewDHCPWorld(t, dir)
+	c05util.ObserveLocks(w.s, w.s.srv4, w.s.srv6)
 
 	var primary, secondary func(g, i int)
 	switch op {
@@ -266,6 +267,7 @@ func TestVerifC05DHCPChild(t *testing.T) {
 		buf := make([]byte, 1<<20)
 		buf = buf[:runtime.Stack(buf, true)]
 		_ = os.WriteFile(filepath.Join(dir, "stacks.txt"), buf, 0o644)
+		res.Edges, res.LockOps = c05util.ObservedEdges()
 		res.Deadlock = true
 		res.Stuck = c05util.StuckKey(string(buf))
 		res.AdminOps = int(ops.Load())
@@ -279,6 +281,7 @@ func TestVerifC05DHCPChild(t *testing.T) {
 		res.PanicMsg = m
 	}
 	res.Done = true
+	res.Edges, res.LockOps = c05util.ObservedEdges()
 	write()
 	os.Exit(0)
 }
